@@ -69,8 +69,17 @@ class Acc:
                  if (not trivial and len(rep.samples) < 1) else None)
         rep.count("groups_per_n_and_source", f"n={n}:{source}")
         if rng is not None:
-            g2 = members.random_basis_change(gens, rng, steps=3 * n)
+            style = rng.randrange(4)
+            if style == 0:          # the same generators in another order
+                g2 = list(gens)
+                rng.shuffle(g2)
+            elif style == 1:        # lightly mixed: one or two row operations, then reordered
+                g2 = members.random_basis_change(gens, rng, steps=rng.choice([1, 2, 3]))
+                rng.shuffle(g2)
+            else:                   # densely mixed
+                g2 = members.random_basis_change(gens, rng, steps=3 * n)
             g2 = members.apply_signs(g2, rng.randrange(1 << n))
+            rep.count("re-presentation_style", ["reordered", "lightly-mixed", "densely-mixed", "densely-mixed"][style])
             try:
                 cid2 = int(lib_id(n, g2))
             except Exception as e:  # noqa: BLE001
@@ -114,8 +123,10 @@ def shard(arg):
         for o in orbits:
             for i in range(k):
                 rng = fw.rng_for("c06m", seed, n, o, i)
-                gens, _ = members.member(n, o, rng)
-                acc.see(gens, "class-member", rng if i % 4 == 0 else None)
+                gens, _ = members.member(n, o, rng, mix=(i % 2 == 0))     # odd members keep the sparse graph-like generators
+                if i % 2 == 1:
+                    rng.shuffle(gens)
+                acc.see(gens, "class-member" if i % 2 == 0 else "class-member(sparse, reordered)", rng if i % 4 in (0, 1) else None)
         acc.finish()
     elif kind == "circuit":
         _, n, count, seed, sid = arg
